@@ -261,7 +261,8 @@ func (check typecheck) binaryExpr(n *node) error {
 			return n.cfgErrorf("invalid operation: division by zero")
 		}
 	case aQuo:
-		if zeroConst(c1) {
+		// A constant zero divisor is valid for a non-constant float or complex dividend.
+		if zeroConst(c1) && (c0.rval.IsValid() || !isFloat(c0.typ.TypeOf()) && !isComplex(c0.typ.TypeOf())) {
 			return n.cfgErrorf("invalid operation: division by zero")
 		}
 		if c0.rval.IsValid() && c1.rval.IsValid() {
